@@ -531,7 +531,10 @@ def run_bbox(case):
     assert lox <= hix and loy <= hiy, case
     q = (Fr(lox), Fr(loy), Fr(hix), Fr(hiy))
     thin = (q[2] - q[0]) <= THIN or (q[3] - q[1]) <= THIN
-    tau = 0 if m.exact else max(m.tolmax((q[0], q[2]), 0), m.tolmax((q[1], q[3]), 1))
+    # the offsets are not dyadic: binary64 rounding of edge + 1e-8 (about 1 ulp of |edge| + |origin|) decides inside
+    # a band of that width around the 1e-8 threshold, on D grids too (matters for origins like 1e6)
+    ulps = 16 * EPS * max(max(abs(q[0]), abs(q[2])) + abs(m.ox), max(abs(q[1]), abs(q[3])) + abs(m.oy))
+    tau = max(ulps, 0 if m.exact else max(m.tolmax((q[0], q[2]), 0), m.tolmax((q[1], q[3]), 1)))
     bounds = BoundingBox(lox, loy, hix, hiy, crs)
     what = f"GridSpec{spec[1:]}.tiles(BoundingBox({lox!r},{loy!r},{hix!r},{hiy!r}))"
     r = R()
